@@ -6,31 +6,33 @@ import (
 
 // Knobs steer the seeded scheduler. All probabilities are per scheduler step.
 type Knobs struct {
-	Sync        bool    // time-ordered execution: deliver what is due, fire what expired, else advance the clock
-	PDrop       float64 // drop a deliverable envelope
-	PDup        float64 // deliver a copy and keep the envelope
-	PEarlyTimer float64 // spurious OnTimeout(current h, current v) before the deadline
-	PStaleTimer float64 // OnTimeout tagged with another height/view
-	PAdvance    float64 // advance the clock to the next deadline although envelopes are waiting
-	PDelayReset float64 // leave a node that accepted a block un-Reset for this step
-	PNewTx      float64 // a new transaction appears (gossiped to all pools unless missing)
-	PTxMissing  float64 // probability that a node does not get a new transaction
-	PBadTx      float64 // a new transaction is invalid (only adversaries propose those)
-	PSupply     float64 // supply one requested transaction to a node
-	PUnasked    float64 // OnTransaction with a transaction nobody asked for
-	PRestart    float64 // amnesia restart of a node of RestartSet
-	PCut        float64 // start a partition of CutSet
-	PHeal       float64 // heal the partition
-	PSyncLedger float64 // a node that is behind copies the next block from a peer
-	PAdv        float64 // adversary move
-	PNotify     float64 // OnNewTransaction to a subscribed node when its pool is non-empty
-	NotifyAll   bool    // deliver OnNewTransaction to every subscribed node as soon as a tx arrives
-	FIFO        bool    // always pick the oldest deliverable envelope / lowest node id (deterministic schedule)
-	SlowNode    int     // node with extra inbound latency (-1: none)
-	SlowExtra   time.Duration
-	MaxRestarts int
-	RestartSet  []int
-	CutSet      []int
+	Sync          bool    // time-ordered execution: deliver what is due, fire what expired, else advance the clock
+	PDrop         float64 // drop a deliverable envelope
+	PDup          float64 // deliver a copy and keep the envelope
+	PEarlyTimer   float64 // spurious OnTimeout(current h, current v) before the deadline
+	PStaleTimer   float64 // OnTimeout tagged with another height/view
+	PAdvance      float64 // advance the clock to the next deadline although envelopes are waiting
+	PDelayReset   float64 // leave a node that accepted a block un-Reset for this step
+	PNewTx        float64 // a new transaction appears (gossiped to all pools unless missing)
+	PTxMissing    float64 // probability that a node does not get a new transaction
+	PBadTx        float64 // a new transaction is invalid (only adversaries propose those)
+	PSupply       float64 // supply one requested transaction to a node
+	PUnasked      float64 // OnTransaction with a transaction nobody asked for
+	PRestart      float64 // amnesia restart of a node of RestartSet
+	PCut          float64 // start a partition of CutSet
+	PHeal         float64 // heal the partition
+	PSyncLedger   float64 // a node that is behind copies the next block from a peer
+	PAdv          float64 // adversary move
+	PNotify       float64 // OnNewTransaction to a subscribed node when its pool is non-empty
+	NotifyAll     bool    // deliver OnNewTransaction to every subscribed node as soon as a tx arrives
+	FIFO          bool    // always pick the oldest deliverable envelope / lowest node id (deterministic schedule)
+	SlowNode      int     // node with extra inbound latency (-1: none)
+	SlowExtra     time.Duration
+	ResetDelayMax time.Duration // the application calls Reset up to this long after accepting a block
+	ResetDelayNode int          // only this node delays its Resets (-1: every node)
+	MaxRestarts   int
+	RestartSet    []int
+	CutSet        []int
 }
 
 // Hooks lets a profile script parts of a run.
@@ -133,6 +135,14 @@ func (c *Cluster) nextInstant(includeEnvelopes bool) (int64, bool) {
 			}
 		}
 	}
+	for _, n := range c.Nodes {
+		if n.PendingReset && n.Live() && n.ResetAt > c.Clock && (!found || n.ResetAt < best) {
+			best, found = n.ResetAt, true
+		}
+	}
+	if len(c.TxSchedule) > 0 && c.TxSchedule[0] > c.Clock && (!found || c.TxSchedule[0] < best) {
+		best, found = c.TxSchedule[0], true
+	}
 	if includeEnvelopes {
 		for _, e := range c.Inflight {
 			if e.ReadyAt > c.Clock && (!found || e.ReadyAt < best) {
@@ -172,9 +182,54 @@ func (c *Cluster) AddTx(bad bool, missProb float64) *Tx {
 
 // afterAPI runs the documented application loop step that follows an API call.
 func (c *Cluster) afterAPI(n *Node) {
-	if n.PendingReset && n.Live() && (c.Cfg.K.Sync || !c.chance(c.Cfg.K.PDelayReset)) {
-		n.Reset()
+	if !n.PendingReset || !n.Live() {
+		return
 	}
+	if max := c.Cfg.K.ResetDelayMax; max > 0 && (c.Cfg.K.ResetDelayNode < 0 || c.Cfg.K.ResetDelayNode == n.ID) {
+		if n.ResetAt == 0 {
+			n.ResetAt = c.Clock + 1 + c.Rng.Int63n(int64(max))
+			if c.Rng.Intn(3) == 0 {
+				n.ResetAt = c.Clock
+			}
+		}
+		if n.ResetAt <= c.Clock {
+			c.doReset(n)
+		}
+		return
+	}
+	if c.Cfg.K.Sync || !c.chance(c.Cfg.K.PDelayReset) {
+		c.doReset(n)
+	}
+}
+
+// doReset calls Reset and then looks again: replaying cached payloads inside
+// Reset may already have decided the new height.
+func (c *Cluster) doReset(n *Node) {
+	n.Reset()
+	c.afterAPI(n)
+}
+
+// dueResets performs the Resets whose (virtual) persistence delay has elapsed.
+func (c *Cluster) dueResets() bool {
+	did := false
+	for _, n := range c.Nodes {
+		if n.PendingReset && n.Live() && n.ResetAt != 0 && n.ResetAt <= c.Clock {
+			c.doReset(n)
+			did = true
+		}
+	}
+	return did
+}
+
+// dueTxs makes scheduled transactions appear.
+func (c *Cluster) dueTxs() bool {
+	did := false
+	for len(c.TxSchedule) > 0 && c.TxSchedule[0] <= c.Clock {
+		c.TxSchedule = c.TxSchedule[1:]
+		c.AddTx(false, c.Cfg.K.PTxMissing)
+		did = true
+	}
+	return did
 }
 
 // Step executes one scheduler step. It returns false when nothing can happen any more.
@@ -188,10 +243,19 @@ func (c *Cluster) Step(hooks *Hooks) bool {
 	}
 	k := &c.Cfg.K
 
+	if c.dueTxs() {
+		return true
+	}
 	// nodes that accepted a block and were left un-Reset get their Reset sooner or later
-	for _, n := range c.Nodes {
-		if n.PendingReset && n.Live() && !c.chance(k.PDelayReset) {
-			n.Reset()
+	if k.ResetDelayMax > 0 {
+		if c.dueResets() {
+			return true
+		}
+	} else {
+		for _, n := range c.Nodes {
+			if n.PendingReset && n.Live() && !c.chance(k.PDelayReset) {
+				c.doReset(n)
+			}
 		}
 	}
 
@@ -316,7 +380,7 @@ func (c *Cluster) Step(hooks *Hooks) bool {
 	// pending resets / syncs may still unblock something
 	for _, n := range c.Nodes {
 		if n.PendingReset && n.Live() {
-			n.Reset()
+			c.doReset(n)
 			return true
 		}
 	}
@@ -487,7 +551,7 @@ func (c *Cluster) syncOne() bool {
 			if b := m.BlockAt(n.Height() + 1); b != nil {
 				n.appendBlock(b, true)
 				n.Accepted = append(n.Accepted, AcceptRec{Height: b.Idx, Hash: b.Hash(), Clock: c.Clock, Seq: c.seq, Inst: n.Restarts, Synced: true})
-				n.Reset()
+				c.doReset(n)
 				return true
 			}
 		}
